@@ -1081,6 +1081,19 @@ class Proto(NoOp):
             return int.from_bytes(self.arg, "big", signed=False)
 
 
+def global_reference(attr: Any) -> TupleType[Any, ast.expr]:
+    """How a global is named in the decompiled program: the name to import and the expression that
+    refers to it. A dotted name (a nested class such as `Outer.Inner`, as written by protocol 4)
+    is imported by its first component and reached by attribute access."""
+    if not isinstance(attr, str) or "." not in attr:
+        return attr, ast.Name(attr, ast.Load())
+    first, *rest = attr.split(".")
+    reference: ast.expr = ast.Name(first, ast.Load())
+    for part in rest:
+        reference = ast.Attribute(reference, part, ast.Load())
+    return first, reference
+
+
 class Global(Opcode):
     name = "GLOBAL"
 
@@ -1099,17 +1112,18 @@ class Global(Opcode):
 
     def run(self, interpreter: Interpreter):
         module, attr = self.module, self.attr
+        imported, reference = global_reference(attr)
         if module in ("__builtin__", "__builtins__", "builtins"):
             # no need to emit an import for builtins!
             pass
         else:
             if sys.version_info < (3, 9):
                 # workaround for a bug in astunparse
-                alias = ast.alias(attr, asname=None)
+                alias = ast.alias(imported, asname=None)
             else:
-                alias = ast.alias(attr)
+                alias = ast.alias(imported)
             interpreter.module_body.append(ast.ImportFrom(module=module, names=[alias], level=0))
-        interpreter.stack.append(ast.Name(attr, ast.Load()))
+        interpreter.stack.append(reference)
 
     def encode(self) -> bytes:
         return f"c{self.module}\n{self.attr}\n".encode()
@@ -1125,17 +1139,18 @@ class StackGlobal(NoOp):
             module = module.value
         if isinstance(attr, ast.Constant):
             attr = attr.value
+        imported, reference = global_reference(attr)
         if module in ("__builtin__", "__builtins__", "builtins"):
             # no need to emit an import for builtins!
             pass
         else:
             if sys.version_info < (3, 9):
                 # workaround for a bug in astunparse
-                alias = ast.alias(attr, asname=None)
+                alias = ast.alias(imported, asname=None)
             else:
-                alias = ast.alias(attr)
+                alias = ast.alias(imported)
             interpreter.module_body.append(ast.ImportFrom(module=module, names=[alias], level=0))
-        interpreter.stack.append(ast.Name(attr, ast.Load()))
+        interpreter.stack.append(reference)
 
 
 class Inst(StackSliceOpcode):
@@ -1156,18 +1171,19 @@ class Inst(StackSliceOpcode):
 
     def run(self, interpreter: Interpreter, stack_slice: List[ast.expr]):
         module, classname = self.module, self.cls
+        imported, reference = global_reference(classname)
         if module in ("__builtin__", "__builtins__", "builtins"):
             # no need to emit an import for builtins!
             pass
         else:
             if sys.version_info < (3, 9):
                 # workaround for a bug in astunparse
-                alias = ast.alias(classname, asname=None)
+                alias = ast.alias(imported, asname=None)
             else:
-                alias = ast.alias(classname)
+                alias = ast.alias(imported)
             interpreter.module_body.append(ast.ImportFrom(module=module, names=[alias], level=0))
         args = ast.Tuple(tuple(stack_slice))
-        call = ast.Call(ast.Name(classname, ast.Load()), list(args.elts), [])
+        call = ast.Call(reference, list(args.elts), [])
         var_name = interpreter.new_variable(call)
         interpreter.stack.append(ast.Name(var_name, ast.Load()))
 
